@@ -51,6 +51,8 @@ struct Args {
     seed: u64,
     jobs: usize,
     count: Option<u64>,
+    start: u64,
+    stride: u64,
     root: PathBuf,
     out: Option<PathBuf>,
     log: Option<PathBuf>,
@@ -64,7 +66,7 @@ fn parse_args() -> Args {
         tier: match std::env::var("VERIF_TIER").ok().as_deref() { Some("thorough") => Tier::Thorough, _ => Tier::Quick },
         seed: std::env::var("VERIF_SEED").ok().and_then(|s| s.parse::<u64>().ok()).unwrap_or(DEFAULT_SEED),
         jobs: std::thread::available_parallelism().map(|n| n.get()).unwrap_or(4).min(16),
-        count: None, root: PathBuf::from("/verif"), out: None, log: None,
+        count: None, start: 0, stride: 1, root: PathBuf::from("/verif"), out: None, log: None,
     };
     let mut i = 3;
     while i < argv.len() {
@@ -74,6 +76,8 @@ fn parse_args() -> Args {
             "--seed" => { a.seed = val.parse().unwrap_or(DEFAULT_SEED); i += 1; },
             "--jobs" => { a.jobs = val.parse().unwrap_or(1).max(1); i += 1; },
             "--count" => { a.count = val.parse().ok(); i += 1; },
+            "--start" => { a.start = val.parse().unwrap_or(0); i += 1; },
+            "--stride" => { a.stride = val.parse().unwrap_or(1).max(1); i += 1; },
             "--root" => { a.root = PathBuf::from(val); i += 1; },
             "--out" => { a.out = Some(PathBuf::from(val)); i += 1; },
             "--log" => { a.log = Some(PathBuf::from(val)); i += 1; },
@@ -89,6 +93,7 @@ fn main() {
     let args = parse_args();
     let code = match args.cmd.as_str() {
         "worker" => { exec::worker_main(&args.target); 0 },
+        "slice" => slice_main(&args),
         "run" => run_property(&args),
         "replay" => replay(&args),
         _ => { eprintln!("sdsim: unknown command {}", args.cmd); 2 },
@@ -134,6 +139,7 @@ impl Known {
 //-----------------------------------------------------------------------------
 // Running a property
 
+#[derive(Default, Serialize, Deserialize)]
 struct WorkerResult {
     stats: Stats,
     scenarios: u64,
@@ -141,46 +147,150 @@ struct WorkerResult {
     violations: Vec<(u64, Scenario, Violation)>,
     log: Vec<(u64, u64, u64)>,
     samples: Vec<(u64, Scenario)>,
-    crashes: u64,
+}
+
+fn scenario_at(prop: &str, tier: Tier, seed: u64, index: u64) -> Scenario {
+    let mut rng = Rng::new(mix(&[seed, fnv(prop.as_bytes()), index]));
+    generate(prop, tier, &mut rng)
+}
+
+/// A slice process: executes indices start, start+stride, ... in this (single-threaded) process.
+/// Protocol on stdout: `S <index>` before each scenario, `R <json>` with the aggregated results of a
+/// chunk, `E` at the end. If the process dies, the supervisor knows which scenario was running.
+fn slice_main(args: &Args) -> i32 {
+    use std::io::Write;
+    let prop = args.target.as_str();
+    let count = args.count.unwrap_or(0);
+    let want_log = args.log.is_some();
+    // Runaway allocations abort here instead of pushing the machine into swap.
+    unsafe {
+        let mut lim = libc::rlimit { rlim_cur: 0, rlim_max: 0 };
+        libc::getrlimit(libc::RLIMIT_AS, &mut lim);
+        let want: libc::rlim_t = 24 << 30;
+        lim.rlim_cur = if lim.rlim_max == libc::RLIM_INFINITY { want } else { want.min(lim.rlim_max) };
+        libc::setrlimit(libc::RLIMIT_AS, &lim);
+    }
+    let out = std::io::stdout();
+    let mut r = WorkerResult::default();
+    let mut since = Instant::now();
+    let mut i = args.start;
+    while i < count {
+        { let mut o = out.lock(); let _ = writeln!(o, "S {}", i); let _ = o.flush(); }
+        let scn = scenario_at(prop, args.tier, args.seed, i);
+        let outcome = scn.run(prop);
+        r.scenarios += 1;
+        *r.kinds.entry(scn.kind().to_string()).or_insert(0) += 1;
+        if want_log {
+            let sh = fnv(serde_json::to_string(&scn).unwrap().as_bytes());
+            let oh = fnv(serde_json::to_string(&outcome).unwrap().as_bytes());
+            r.log.push((i, sh, oh));
+        }
+        if i < 3 * args.stride.max(1) && r.samples.len() < 3 { r.samples.push((i, scn.clone())); }
+        r.stats.merge(&outcome.stats);
+        if let Some(v) = outcome.violation { if r.violations.len() < 16 { r.violations.push((i, scn, v)); } }
+        i += args.stride.max(1);
+        if r.scenarios >= 20_000 || since.elapsed().as_secs() >= 5 {
+            { let mut o = out.lock(); let _ = writeln!(o, "R {}", serde_json::to_string(&r).unwrap()); let _ = o.flush(); }
+            r = WorkerResult::default();
+            since = Instant::now();
+        }
+    }
+    let mut o = out.lock();
+    let _ = writeln!(o, "R {}", serde_json::to_string(&r).unwrap());
+    let _ = writeln!(o, "E");
+    let _ = o.flush();
+    0
+}
+
+/// Supervises one slice: restarts it after a crash or a hang, recording the scenario that was running.
+fn supervise_slice(args: &Args, prop: &str, count: u64, slice: u64, stride: u64, tier_name: &str) -> (WorkerResult, u64) {
+    use std::io::{BufRead, BufReader};
+    use std::process::{Command, Stdio};
+    use std::sync::atomic::{AtomicU64, Ordering};
+    use std::sync::Arc;
+    let mut total = WorkerResult::default();
+    let mut crashes = 0u64;
+    let mut next_start = slice;
+    let exe = std::env::current_exe().expect("current_exe");
+    while next_start < count {
+        let mut cmd = Command::new(&exe);
+        cmd.arg("slice").arg(prop).arg("--tier").arg(tier_name).arg("--seed").arg(args.seed.to_string())
+            .arg("--count").arg(count.to_string()).arg("--start").arg(next_start.to_string()).arg("--stride").arg(stride.to_string())
+            .stdin(Stdio::null()).stdout(Stdio::piped()).stderr(Stdio::null());
+        if args.log.is_some() { cmd.arg("--log").arg("-"); }
+        let mut child = match cmd.spawn() { Ok(c) => c, Err(e) => {
+            total.violations.push((next_start, scenario_at(prop, args.tier, args.seed, next_start), Violation::new(prop, "harness", "spawn", e.to_string())));
+            return (total, crashes);
+        } };
+        let pid = child.id();
+        let stdout = BufReader::new(child.stdout.take().unwrap());
+        // Watchdog: a scenario that makes no progress for this long is killed and reported as a hang.
+        let beat = Arc::new(AtomicU64::new(0));
+        let done = Arc::new(std::sync::atomic::AtomicBool::new(false));
+        let hung = Arc::new(std::sync::atomic::AtomicBool::new(false));
+        let watchdog = { let beat = beat.clone(); let done = done.clone(); let hung = hung.clone(); std::thread::spawn(move || {
+            let limit = std::env::var("VERIF_HANG_SECS").ok().and_then(|s| s.parse::<u64>().ok()).unwrap_or(300);
+            let mut last = 0u64; let mut idle = 0u64;
+            while !done.load(Ordering::Relaxed) {
+                std::thread::sleep(std::time::Duration::from_millis(500));
+                let b = beat.load(Ordering::Relaxed);
+                if b != last { last = b; idle = 0; } else { idle += 1; }
+                if idle >= 2 * limit { hung.store(true, Ordering::Relaxed); unsafe { libc::kill(pid as i32, libc::SIGKILL); } break; }
+            }
+        }) };
+        let mut in_flight: Option<u64> = None;
+        let mut ended = false;
+        for line in stdout.lines() {
+            let line = match line { Ok(l) => l, Err(_) => break };
+            beat.fetch_add(1, Ordering::Relaxed);
+            if let Some(rest) = line.strip_prefix("S ") { in_flight = rest.trim().parse().ok(); }
+            else if let Some(rest) = line.strip_prefix("R ") {
+                if let Ok(r) = serde_json::from_str::<WorkerResult>(rest) {
+                    total.stats.merge(&r.stats); total.scenarios += r.scenarios;
+                    for (k, n) in r.kinds { *total.kinds.entry(k).or_insert(0) += n; }
+                    total.violations.extend(r.violations); total.log.extend(r.log); total.samples.extend(r.samples);
+                }
+            } else if line.trim() == "E" { ended = true; }
+        }
+        let status = child.wait();
+        done.store(true, Ordering::Relaxed);
+        let _ = watchdog.join();
+        scratch::cleanup_pid(pid);
+        if ended { break; }
+        // The slice died while running `in_flight`.
+        crashes += 1;
+        let index = in_flight.unwrap_or(next_start);
+        let scn = scenario_at(prop, args.tier, args.seed, index);
+        let how = match status {
+            Ok(st) => { use std::os::unix::process::ExitStatusExt; match st.signal() { Some(sig) => format!("killed by signal {}", sig), None => format!("exit status {:?}", st.code()) } },
+            Err(e) => format!("wait failed: {}", e),
+        };
+        let (clause, msg) = if hung.load(Ordering::Relaxed) { ("hang", format!("the scenario made no progress and was killed by the watchdog ({})", how)) }
+            else { ("crash", format!("the process running the scenario died ({}): memory outside a valid buffer or mapping was touched, an allocation ran away, or an abort was raised", how)) };
+        if total.violations.len() < 64 { total.violations.push((index, scn.clone(), Violation::new(prop, clause, scn.kind(), msg))); }
+        total.scenarios += 1;
+        *total.kinds.entry(scn.kind().to_string()).or_insert(0) += 1;
+        if args.log.is_some() { total.log.push((index, fnv(serde_json::to_string(&scn).unwrap().as_bytes()), fnv(clause.as_bytes()))); }
+        next_start = index + stride;
+        if crashes >= 50 { break; }
+    }
+    (total, crashes)
 }
 
 fn run_property(args: &Args) -> i32 {
     let prop = args.target.as_str();
-    if !["C06", "C12", "C13", "C14", "C18", "C19"].contains(&prop) { eprintln!("sdsim: property {} is not served by this binary", prop); return 2; }
+    if !["C06", "C12", "C13", "C14", "C18", "C19", "C20"].contains(&prop) { eprintln!("sdsim: property {} is not served by this binary", prop); return 2; }
     let count = args.count.unwrap_or_else(|| budget(prop, args.tier));
     let tier_name = if args.tier == Tier::Thorough { "thorough" } else { "quick" };
     println!("sdsim: property={} tier={} VERIF_SEED={} scenarios={} jobs={}", prop, tier_name, args.seed, count, args.jobs);
     let start = Instant::now();
-    let prop_hash = fnv(prop.as_bytes());
     let jobs = args.jobs.min(count.max(1) as usize).max(1);
-    let want_log = args.log.is_some();
-    let results: Mutex<Vec<WorkerResult>> = Mutex::new(Vec::new());
+    let results: Mutex<Vec<(WorkerResult, u64)>> = Mutex::new(Vec::new());
     std::thread::scope(|scope| {
         for wi in 0..jobs {
             let results = &results;
-            let tier = args.tier;
-            let seed = args.seed;
             scope.spawn(move || {
-                let mut exec = Executor::new(prop);
-                let mut r = WorkerResult { stats: Stats::default(), scenarios: 0, kinds: BTreeMap::new(), violations: Vec::new(), log: Vec::new(), samples: Vec::new(), crashes: 0 };
-                let mut i = wi as u64;
-                while i < count {
-                    let mut rng = Rng::new(mix(&[seed, prop_hash, i]));
-                    let scn = generate(prop, tier, &mut rng);
-                    let outcome = exec.run(&scn);
-                    r.scenarios += 1;
-                    *r.kinds.entry(scn.kind().to_string()).or_insert(0) += 1;
-                    if want_log {
-                        let sh = fnv(serde_json::to_string(&scn).unwrap().as_bytes());
-                        let oh = fnv(serde_json::to_string(&outcome).unwrap().as_bytes());
-                        r.log.push((i, sh, oh));
-                    }
-                    if r.samples.len() < 2 || (r.samples.len() < 3 && !outcome.stats.faults.is_empty()) { r.samples.push((i, scn.clone())); }
-                    r.stats.merge(&outcome.stats);
-                    if let Some(v) = outcome.violation { if r.violations.len() < 64 { r.violations.push((i, scn, v)); } }
-                    i += jobs as u64;
-                }
-                r.crashes = exec.crashes();
+                let r = supervise_slice(args, prop, count, wi as u64, jobs as u64, tier_name);
                 results.lock().unwrap().push(r);
             });
         }
@@ -193,8 +303,8 @@ fn run_property(args: &Args) -> i32 {
     let mut log: Vec<(u64, u64, u64)> = Vec::new();
     let mut samples: Vec<(u64, Scenario)> = Vec::new();
     let mut crashes = 0u64;
-    for r in results.drain(..) {
-        stats.merge(&r.stats); scenarios += r.scenarios; crashes += r.crashes;
+    for (r, c) in results.drain(..) {
+        stats.merge(&r.stats); scenarios += r.scenarios; crashes += c;
         for (k, n) in r.kinds { *kinds.entry(k).or_insert(0) += n; }
         violations.extend(r.violations); log.extend(r.log); samples.extend(r.samples);
     }
@@ -251,6 +361,7 @@ fn run_property(args: &Args) -> i32 {
     let wall = start.elapsed().as_secs_f64();
 
     // Evidence.
+    let distinct = stats.sigs.distinct();
     let level = match prop { "C13" | "C14" => "fault_enumeration", _ => "exploration" };
     let expected = expected_probes(prop);
     let zero: Vec<&str> = expected.iter().filter(|p| !stats.probes.contains_key(**p)).cloned().collect();
@@ -264,7 +375,7 @@ fn run_property(args: &Args) -> i32 {
         "violations": reported,
         "coverage": {
             "evaluations": stats.evaluations,
-            "distinct_nontrivial": stats.sigs.len(),
+            "distinct_nontrivial": distinct,
             "rule": rule_text(prop),
             "samples": samples.iter().map(|(i, s)| json!({"index": i, "scenario": s})).collect::<Vec<_>>(),
             "scenarios": scenarios,
@@ -288,12 +399,37 @@ fn run_property(args: &Args) -> i32 {
     });
     let edir = args.out.clone().unwrap_or_else(|| args.root.clone()).join("evidence");
     let _ = std::fs::create_dir_all(&edir);
+    let evidence = if prop == "C20" { merge_c20(&edir, evidence) } else { evidence };
     if let Err(e) = std::fs::write(edir.join(format!("{}.json", prop)), serde_json::to_string_pretty(&evidence).unwrap()) {
         println!("HARNESS-ERROR cannot write evidence: {}", e);
         harness_errors += 1;
     }
-    println!("sdsim: property={} scenarios={} executions={} distinct_signatures={} steps={} faults={:?} violations={} known={} wall={:.1}s", prop, scenarios, stats.evaluations, stats.sigs.len(), stats.steps, stats.faults, reported, known_hits, wall);
+    println!("sdsim: property={} scenarios={} executions={} distinct_signatures={} steps={} faults={:?} violations={} known={} wall={:.1}s", prop, scenarios, stats.evaluations, distinct, stats.steps, stats.faults, reported, known_hits, wall);
     if reported > 0 { 1 } else if harness_errors > 0 { 2 } else { 0 }
+}
+
+/// C20 is decided by two engines: sdshuttle writes the evidence file first, this run (real threads
+/// under a prescribed hand-over) adds its part to it.
+fn merge_c20(edir: &Path, own: serde_json::Value) -> serde_json::Value {
+    let existing = std::fs::read_to_string(edir.join("C20.json")).ok().and_then(|t| serde_json::from_str::<serde_json::Value>(&t).ok());
+    let mut base = match existing { Some(b) if b.get("coverage").and_then(|c| c.get("configurations")).is_some() => b, _ => return own };
+    let oc = own.get("coverage").cloned().unwrap_or(json!({}));
+    let add = |a: &serde_json::Value, b: &serde_json::Value| json!(a.as_u64().unwrap_or(0) + b.as_u64().unwrap_or(0));
+    if let Some(c) = base.get_mut("coverage").and_then(|c| c.as_object_mut()) {
+        let ev = add(c.get("evaluations").unwrap_or(&json!(0)), oc.get("evaluations").unwrap_or(&json!(0)));
+        let dn = add(c.get("distinct_nontrivial").unwrap_or(&json!(0)), oc.get("distinct_nontrivial").unwrap_or(&json!(0)));
+        c.insert("evaluations".into(), ev);
+        c.insert("distinct_nontrivial".into(), dn);
+        c.insert("real_thread_volume_runs".into(), oc.clone());
+        if let Some(r) = c.get("rule").and_then(|r| r.as_str()).map(|r| r.to_string()) {
+            c.insert("rule".into(), json!(format!("{} PLUS real-thread runs: {}", r, oc.get("rule").and_then(|x| x.as_str()).unwrap_or(""))));
+        }
+    }
+    let w = base.get("wall_s").and_then(|x| x.as_f64()).unwrap_or(0.0) + own.get("wall_s").and_then(|x| x.as_f64()).unwrap_or(0.0);
+    let v = base.get("violations").and_then(|x| x.as_u64()).unwrap_or(0) + own.get("violations").and_then(|x| x.as_u64()).unwrap_or(0);
+    base["wall_s"] = json!(w);
+    base["violations"] = json!(v);
+    base
 }
 
 fn sanitize(s: &str) -> String {
@@ -363,6 +499,7 @@ fn rule_text(prop: &str) -> &'static str {
         "C13" => "one MapViews scenario per index: a real file of 1-6 concatenated mappable structures, mapped; views at every structure offset, at 6 offsets outside the file, and on EVERY 8-byte truncation of the file (exhaustive per file). An execution is one (file, truncation) mapping; distinct = distinct (cut position, file length, structure cut, structure count).",
         "C14" => "per index one structure or writer history; EVERY fault point is then executed: every byte position 0..size for load/skip truncation, read error, write error and Ok(0) sinks; every file-size limit, open, seek and write call for the writers; every 8-byte cut for mapped files. evaluations counts executions (one per fault point); distinct = distinct I/O signatures among them (every execution has a fault that fired).",
         "C18" => "one MapLife scenario per index: 1-3 files (sizes around page boundaries, empty, odd, missing, sparse) and a history of map / read / write / drop with several maps alive, mmap refusal injected on chosen calls; /proc/self/maps checked after every step. distinct = distinct hash of the sequence of (op, mode, refusal, file class).",
+        "C20" => "per index one NameVolume scenario: 2-5 REAL threads with 1..300000 calls each (thread-local or per-thread state is real here, unlike under shuttle); a token decides which thread runs, handing over after a prescribed number of calls, so exactly one thread is runnable and the interleaving is the prescribed one. distinct = distinct (call-volume classes per thread, hand-over class).",
         "C19" => "per index a Supports history (enable_* / write / load / clone over a bitvector with an initial support subset), a Foreign file (composite written without support structures) or a Skip stream (prefix, Option<X>, sentinel). distinct = distinct I/O signature where a short read / EINTR fired, else distinct history shape.",
         _ => "",
     }
@@ -372,6 +509,7 @@ fn real_vs_stub(prop: &str) -> serde_json::Value {
     match prop {
         "C06" | "C19" => json!({"real": ["all serialize/load/skip/enable code of simple-sds", "library constructors"], "stub": ["the byte stream (SimReader/SimWriter)", "the file system behind serialize_to/load_from (SimFs via verif_io)", "C19: the foreign composer that strips support structures"]}),
         "C12" => json!({"real": ["RawVectorWriter", "IntVectorWriter", "RawVector/IntVector serialization (the oracle the statement names)"], "stub": ["std::fs::File/OpenOptions replaced by SimFs through the verif_io seam; a sample of scenarios is re-run on the real file system"]}),
+        "C20" => json!({"real": ["serialize::temp_file_name with the std atomic", "real OS threads"], "stub": ["the scheduler: a token ring decides which thread runs"]}),
         "C13" | "C18" => json!({"real": ["MemoryMap, all MemoryMapped views", "kernel mmap/munmap", "real files"], "stub": ["only the injected MAP_FAILED (C18)"]}),
         "C14" => json!({"real": ["all library code", "kernel mmap for the torn-file clause"], "stub": ["byte streams", "SimFs for the writers"]}),
         _ => json!({}),
@@ -391,10 +529,11 @@ fn assumptions(prop: &str) -> Vec<&'static str> {
 fn expected_probes(prop: &str) -> Vec<&'static str> {
     match prop {
         "C06" => vec!["nested Some(Some(..))", "None payload", "option of a structure that contains options", "byte payload with padding", "concatenated stream", "EINTR during load", "EINTR during serialize", "file route (serialize_to/load_from)", "single-element structure"],
-        "C12" => vec!["flush with carried overflow", "flush with exactly full buffer", "final flush of an empty buffer", "zero pushes", "width 64", "push_int(_, 0)", "dropped while open", "close() called again after success", "buffer size 0", "parent header (close_with_header)", "real file system cross-check"],
+        "C12" => vec!["flush with carried overflow", "flush with exactly full buffer", "final flush of an empty buffer", "zero pushes", "width 64", "push_int(_, 0)", "dropped while open", "close() called again after success", "buffer size 0", "parent header (close_with_header)", "real file system cross-check", "longer file already present"],
         "C13" => vec!["empty or tiny structure at end of file", "option holding an empty structure", "truncation exactly after a length element", "truncation inside a structure", "offsets outside the file requested"],
         "C14" => vec!["fault exactly on an element boundary", "fault inside an element", "skip: fault after the length element", "sink fails on the first byte", "sink fails in the last element", "failure reported by a panicking push", "failure reported by close()", "failure reported by the constructor", "fault in a header write", "fault in a body write", "truncation inside a structure"],
         "C18" => vec!["several maps alive at once", "write through a mutable map", "file checked after dropping a mutable map", "map creation failed loudly", "map dropped"],
+        "C20" => vec!["a thread with more than 65536 calls", "strict alternation between real threads", "threads run to completion one after another"],
         "C19" => vec!["two or more write/load steps in one history", "empty bitvector", "support structures actually removed", "skip over a 3-level nested option", "skip over None", "EINTR while skipping or loading", "skip over a bitvector with supports", "absent_option written"],
         _ => vec![],
     }
